@@ -1021,6 +1021,11 @@ def run(ctx):
                 "every real fit. Every kind contains sums in which the same analysis object is written more than once (the named "
                 "shapes a+b+a, a+(b+a), (a+b)+(a+b), sum([c,c,c]) in every run + random repetitions) and distinct analyses "
                 "that compare/hash equal, evaluated serially before any pool exists and through the pool. "
+                "User analysis objects are arbitrary: in half of the cases of every kind (and in named free / with_model / both "
+                "shapes and fits of every run) plain and wrapped members carry attributes named like the library's own - model "
+                "(fresh priors / half the search model's / None), analysis, analyses, index, n_cores, free_parameters - set "
+                "directly, reachable through a forwarding __getattr__, or on a subclass overriding log_likelihood_function; "
+                "oracle and model see only the declared sum, so every clause must hold regardless of them. "
                 "distinct = distinct abstract input")
     ctx.trusted = [
         "Coq 8.16.1 kernel incl. vm_compute",
@@ -1169,7 +1174,10 @@ MANIFEST = {
             "characterisation and |free|*n+|shared| count), the fit pipeline modify_before_fit -> make_result -> save_results "
             "(position i = analysis i = child i = folder i), multiplicity of repeated analyses (C15_sum_multiplicity, "
             "C15_serial/pool_multiplicity, C15_member_multiplicity, C15_free_params_count_of_expr; a sum over de-duplicated "
-            "analyses refuted) and an end-to-end statement over expressions; the model is parametrised "
+            "analyses refuted) and an end-to-end statement over expressions; members carrying colliding book-keeping attributes "
+            "(model / analysis / analyses / index / n_cores / free_parameters, direct or via __getattr__) are generated on the "
+            "implementation side only - the model and the oracle are given the declared sum, so correspondence checks that these "
+            "attributes change nothing (no separate theorem); the model is parametrised "
             "by the recorded defects; vm_compute correspondence with the running code under externally steered pool schedules, "
             "real MockSearch fits, and a direct property oracle on every generated case",
     "note": "Trusted: Coq kernel + vm_compute, the correspondence harness incl. the queue proxies that steer pool schedules. "
